@@ -14,7 +14,7 @@ ASSUMPTIONS = [
     "theorems over exact arithmetic; f64 rounding not analysed",
 ]
 
-HOOK_COMMITS = ["aa112f6"]
+HOOK_COMMITS = ["aa112f6", "48cb0fd"]
 FIX_COMMITS = ["536bdea", "2163003", "086d718", "eebbb00", "ae8746e", "813750d", "4dcfce1", "affca7a", "6634824", "7638f19", "8a1300b", "fe98d51", "caf36c4", "e4b64f7", "0c686df", "48a484d", "a33ca28", "1d2c9d7", "159b1e5", "a12e15f", "efcde62", "04ea757"]
 NOT_YET = {}
 
@@ -61,6 +61,15 @@ CFG = {
         "level_note": "Trusted: Lean kernel, Mathlib, hand-written model validated by the correspondence run; parry QBVH box containment assumed (node boxes contain their children); rounding not analysed.",
         "files": ["src/geom2/polyline2.rs", "src/geom2/line2.rs", "src/geom2/curve2.rs"],
         "tol": {"*": 1e-9, "ray.intersections": 1e-7, "ray.param": 1e-6},
+    },
+    "C07": {
+        "cases": {"quick": 1600, "thorough": 80000},
+        "level_text": "Theorems: the alignment problem as a state machine (set_params refreshes the moved/closest caches; residuals and jacobian only read them) keeps params and caches consistent after every sequence of solver calls, so the residual vector of the final state is, entry by entry, the mode-specific distance of the input point moved by the final transform (2-D signed normal distance; 3-D ToPoint / ToPlane); the stale-cache variant is refuted; a solver that only accepts improving trials never ends above its starting objective; the point-to-plane and point-to-point residuals are invariant when points and reference move together. The real structs are driven through the same call sequences (random ones and the solver's own recorded history) and compared with the model, whose closest-point query is the exhaustive scan of C02.",
+        "level_note": "Trusted: Lean kernel, Mathlib, hand-written model validated by the correspondence run (hook: feature verif exposes the private problem structs and the solver's call trace); the Levenberg-Marquardt crate is external (its acceptance bookkeeping is modelled and checked against the recorded trace; convergence inside the basin is observed, not proved); rounding not analysed.",
+        "files": ["src/geom2/align2/points_to_curve.rs", "src/geom3/align3/points_to_mesh.rs", "src/common/align.rs", "src/geom2/align2/rc_params2.rs"],
+        "tol": {"*": 1e-8},
+        "trusted": ["external: levenberg-marquardt 0.14 (trial/accept history recorded through the verif hook and replayed on the model), parry closest-point queries (see C02)"],
+        "claimed": False,
     },
     "C08": {
         "cases": {"quick": 4800, "thorough": 480000},
